@@ -49,7 +49,7 @@ def run(ctx):
     # serving - a wedged multiplexed connection is ended by its idle time-out even under steady load
     xdrv = vf.build_driver("xportdrv")
     t3 = ctx.path("malreply.ndjson")
-    ctx.driver(xdrv, ["-mode", "fault", "-out", t3], env={"VERIF_FAULTS": "half,garbage,garbage2nd,halfsteady", "VERIF_SEED": str(ctx.seed)}, timeout=600)
+    ctx.driver(xdrv, ["-mode", "fault", "-out", t3], env={"VERIF_FAULTS": "half,garbage,garbage2nd,halfsteady,halfmany", "VERIF_SEED": str(ctx.seed)}, timeout=600)
     ctx.validate("FaultTrace", t3, lambda ev, inv: "%s:%s" % (inv, ev.get("sc", ev.get("ev", "?"))),
                  describe=lambda ev, inv: "%s at %s" % (inv, json.dumps(ev)[:400]), timeout=600, require_events=60)
     ctx.extra["enumerated_inputs_replayed"] = len(cases)
